@@ -68,5 +68,127 @@ def validateDomainCurrent (host : Str) (customDomains : List Str) (subDomain : S
 def underSubDomainHost (host domain : Str) : Bool :=
   host ≠ [] && (dot :: toLower host).isSuffixOf (toLower domain)
 
+/-! ## client side: ValidateProxyConfigurerForClient, ValidateVisitorConfigurer; ValidateServerConfig
+
+  Go sources mirrored here:
+    pkg/config/v1/validation/proxy.go    validateProxyBaseConfigForClient, validateDomainConfigForClient,
+                                         ValidateProxyConfigurerForClient and the eight validate<T>ProxyConfigForClient
+    pkg/config/v1/validation/visitor.go  ValidateVisitorConfigurer, validateVisitorBaseConfig, validateXTCPVisitorConfig
+    pkg/config/v1/validation/server.go   ValidateServerConfig
+    pkg/config/v1/validation/common.go   validateWebServerConfig, validateLogConfig, ValidatePort
+  Annotation keys (k8s IsQualifiedName) and plugin options are outside the model: the driver skips lines
+  that carry an annotation key outside the plain fragment, plugins are never set. -/
+
+inductive PKind
+  | tcp | udp | tcpmux | http | https | stcp | xtcp | sudp
+  deriving DecidableEq, Repr
+
+/-- the fields the client-side proxy validators read -/
+structure ProxyView where
+  name : Str
+  proxyProtocolVersion : Str
+  bandwidthLimitMode : Str
+  pluginType : Str
+  localPort : Int
+  healthCheckType : Str
+  healthCheckPath : Str
+  subDomain : Str
+  customDomains : List Str
+  multiplexer : Str
+
+inductive ClientErr
+  | name | ppv | bwmode | port | hctype | hcpath | domains | mux
+  deriving DecidableEq, Repr
+
+def sV1 : Str := [118, 49]
+def sV2 : Str := [118, 50]
+def sClient : Str := [99, 108, 105, 101, 110, 116]
+def sServer : Str := [115, 101, 114, 118, 101, 114]
+def sTcp : Str := [116, 99, 112]
+def sHttp : Str := [104, 116, 116, 112]
+def sHttpConnect : Str := [104, 116, 116, 112, 99, 111, 110, 110, 101, 99, 116]
+def sKcp : Str := [107, 99, 112]
+def sQuic : Str := [113, 117, 105, 99]
+
+/-- `validateProxyBaseConfigForClient` (annotations valid, no plugin options to check) -/
+def validateProxyBaseForClient (c : ProxyView) : Option ClientErr :=
+  if c.name = [] then some .name
+  else if !([[], sV1, sV2].contains c.proxyProtocolVersion) then some .ppv
+  else if !([sClient, sServer].contains c.bandwidthLimitMode) then some .bwmode
+  else if c.pluginType = [] && !validatePort c.localPort then some .port
+  else if !([[], sTcp, sHttp].contains c.healthCheckType) then some .hctype
+  else if c.healthCheckType = sHttp && c.healthCheckPath = [] then some .hcpath
+  else none
+
+/-- `validateDomainConfigForClient` -/
+def validateDomainForClient (c : ProxyView) : Option ClientErr :=
+  if c.subDomain = [] && c.customDomains.length = 0 then some .domains else none
+
+/-- `ValidateProxyConfigurerForClient` -/
+def validateProxyForClient (k : PKind) (c : ProxyView) : Option ClientErr :=
+  match validateProxyBaseForClient c with
+  | some e => some e
+  | none =>
+    match k with
+    | .tcpmux =>
+      match validateDomainForClient c with
+      | some e => some e
+      | none => if !([sHttpConnect].contains c.multiplexer) then some .mux else none
+    | .http | .https => validateDomainForClient c
+    | _ => none
+
+inductive VisitorErr
+  | name | serverName | bindPort | protocol
+  deriving DecidableEq, Repr
+
+/-- `ValidateVisitorConfigurer` (`isXTCP` selects validateXTCPVisitorConfig) -/
+def validateVisitor (isXTCP : Bool) (name serverName : Str) (bindPort : Int) (protocol : Str) : Option VisitorErr :=
+  if name = [] then some .name
+  else if serverName = [] then some .serverName
+  else if bindPort = 0 then some .bindPort
+  else if isXTCP && !([sKcp, sQuic].contains protocol) then some .protocol
+  else none
+
+/-- the fields `ValidateServerConfig` reads (http plugins left out) -/
+structure ServerView where
+  authMethod : Str
+  scopes : List Str
+  logLevel : Str
+  webTLS : Option (Str × Str)          -- WebServer.TLS: certFile, keyFile
+  webPort : Int
+  bindPort : Int
+  kcpBindPort : Int
+  quicBindPort : Int
+  vhostHTTPPort : Int
+  vhostHTTPSPort : Int
+  tcpmuxPort : Int
+
+inductive ServerErr
+  | auth | scopes | log | cert | key
+  | port (field : Nat)      -- 0 webServer.port, 1 bindPort, 2 kcpBindPort, 3 quicBindPort, 4 vhostHTTPPort, 5 vhostHTTPSPort, 6 tcpMuxHTTPConnectPort
+  deriving DecidableEq, Repr
+
+def authMethods : List Str := [[116, 111, 107, 101, 110], [111, 105, 100, 99]]                       -- token, oidc
+def authScopes : List Str := [[72, 101, 97, 114, 116, 66, 101, 97, 116, 115], [78, 101, 119, 87, 111, 114, 107, 67, 111, 110, 110, 115]]
+def logLevels : List Str := [[116, 114, 97, 99, 101], [100, 101, 98, 117, 103], [105, 110, 102, 111], [119, 97, 114, 110], [101, 114, 114, 111, 114]]
+
+/-- `validateWebServerConfig`: the first failing check only -/
+def validateWebServer (tls : Option (Str × Str)) (port : Int) : List ServerErr :=
+  match tls with
+  | some (cert, key) =>
+    if cert = [] then [.cert] else if key = [] then [.key] else (if validatePort port then [] else [.port 0])
+  | none => if validatePort port then [] else [.port 0]
+
+def portErr (p : Int) (i : Nat) : List ServerErr := if validatePort p then [] else [.port i]
+
+/-- `ValidateServerConfig`: every failing check, in the order they are appended -/
+def validateServer (c : ServerView) : List ServerErr :=
+  (if authMethods.contains c.authMethod then [] else [.auth]) ++
+  (if c.scopes.all (authScopes.contains ·) then [] else [.scopes]) ++
+  (if logLevels.contains c.logLevel then [] else [.log]) ++
+  validateWebServer c.webTLS c.webPort ++
+  portErr c.bindPort 1 ++ portErr c.kcpBindPort 2 ++ portErr c.quicBindPort 3 ++
+  portErr c.vhostHTTPPort 4 ++ portErr c.vhostHTTPSPort 5 ++ portErr c.tcpmuxPort 6
+
 end Validate
 end Frp
